@@ -47,6 +47,8 @@ def run_impl(case, min_pts, min_iv):
     )
 
     data = np.array(case["data"], dtype=float)
+    if case.get("as_int"):
+        data = data.astype(np.int64)  # integer-valued observations handed over as an integer array
     kind = case["slicer"]
     ref = _mk_ref(case.get("ref", "callable"))
     try:
@@ -374,6 +376,23 @@ def random_cases(rng, n_cases):
                    "data": data, "min_pts": mp, "min_iv": mi, "gen": "random"}
 
 
+def int_dtype_cases(rng, n_cases):
+    """integer-valued data passed as an integer-dtype array (counts, rounded measurements)"""
+    for case in random_cases(rng, n_cases):
+        c = dict(case)
+        c["data"] = [float(int(round(v * 3))) for v in case["data"]]
+        if max(c["data"]) <= 0:
+            continue
+        if c["slicer"] == "width":
+            c["width"] = float(rng.choice([1.0, 2.0, 0.5, 1.5]))
+            c["value_range"] = None
+        if c["slicer"] == "number" and c.get("value_range") is not None:
+            c["value_range"] = None
+        c["as_int"] = True
+        c["gen"] = "int-dtype"
+        yield c
+
+
 def edge_probe_cases(base_cases):
     """second call on data containing every reported edge and its float neighbours, with the
     value range pinned so that the intervals are the same."""
@@ -522,6 +541,7 @@ def main(ck):
     rnd = list(random_cases(rng, 6000 if thorough else 500))
     process(ck, rnd)
     process(ck, list(edge_probe_cases(rnd)))
+    process(ck, list(int_dtype_cases(rng, 1500 if thorough else 150)))
     check_reuse(ck, rng, 600 if thorough else 80)
     ck.extra["exhaustive"] = False
     ck.extra["lattice_exhaustive_up_to_length"] = 5 if thorough else 3
